@@ -803,6 +803,20 @@ def _do(world, st, op):
         if how == 'self':
             # the attribute assigned the very object it currently holds
             new = cur
+        elif how == 'empty' and op.get('attr') in ('preamble', 'diff'):
+            # unset <-> empty: the smallest content there is (None, '' and
+            # b'' are three different values)
+            new = None if cur in ('', b'') else (
+                ('' if op['attr'] == 'preamble' else b'')
+                if cur is None else None)
+
+            if new is None and cur is None:
+                return {'outcome': 'skip', 'skipped': 'not-applicable'}
+
+            setattr(node, op['attr'], new)
+            got = getattr(node, op['attr'])
+            return {'tweaked': how, 'same': strict_eq(got, new),
+                    'stored': jsonable(got)}
         elif how == 'list_append' and isinstance(cur, dict):
             new, done = grow(copy.deepcopy(cur))
 
